@@ -13,6 +13,7 @@ Notation sort_by_time := (sort_by_time hash dat).
 Notation merge_patches := (merge_patches hash hash_eqb dat).
 Notation commits_subset := (commits_subset hash hash_eqb dat).
 Notation mem_commit := (mem_commit hash hash_eqb dat).
+Notation not_in_remote := (not_in_remote hash hash_eqb dat).
 
 Definition time_le (a b : rec) : Prop := (er_time a <= er_time b)%N.
 
@@ -69,8 +70,8 @@ Proof.
 Qed.
 
 Theorem push_remote_spec local remote m : merge_patches local remote = PushRemote m ->
-  Permutation m (local ++ remote) /\ StronglySorted time_le m /\
-  (forall t, at_time t m = at_time t local ++ at_time t remote).
+  Permutation m (not_in_remote remote local ++ remote) /\ StronglySorted time_le m /\
+  (forall t, at_time t m = at_time t (not_in_remote remote local) ++ at_time t remote).
 Proof.
   unfold MergePatches.merge_patches. destruct (commits_subset local remote); [discriminate|].
   intro H. injection H as <-. split; [apply sort_perm|]. split; [apply sort_sorted|].
@@ -107,17 +108,56 @@ Proof.
   exists r. split; [exact Hr|]. intro Hin. apply mem_commit_spec in Hin. congruence.
 Qed.
 
-(* every event committed on either side is present exactly once — provided no commit hash
-   occurs twice among the two suffixes (see C05_exactly_once_refuted for the full statement) *)
-Theorem exactly_once_partial local remote m : merge_patches local remote = PushRemote m ->
-  NoDup (map er_commit (local ++ remote)) ->
-  NoDup (map er_commit m) /\ (forall c, In c (map er_commit m) <-> In c (map er_commit (local ++ remote))).
+(* every event committed on either side since the ancestor is present exactly once, identical
+   events made on both sides counting as one; nothing else is added *)
+Lemma mem_commit_false c l : mem_commit c l = false <-> ~ In c (map er_commit l).
 Proof.
-  intros H Hnd. destruct (push_remote_spec _ _ _ H) as (Hp & _ & _).
-  assert (Permutation (map er_commit m) (map er_commit (local ++ remote))) as Hpm by (apply Permutation_map; exact Hp).
+  split; intro H.
+  - intro Hin. apply mem_commit_spec in Hin. congruence.
+  - destruct (mem_commit c l) eqn:E; [|reflexivity]. exfalso. apply H. apply mem_commit_spec. exact E.
+Qed.
+
+Lemma NoDup_map_filter (f : rec -> bool) l : NoDup (map er_commit l) -> NoDup (map er_commit (filter f l)).
+Proof.
+  induction l as [|x l IH]; intro H; [constructor|]. cbn [filter map] in *. inversion H as [|? ? Hn Hr]; subst.
+  destruct (f x); [|apply IH; exact Hr]. cbn [map]. constructor; [|apply IH; exact Hr].
+  intro Hin. apply Hn. apply in_map_iff in Hin. destruct Hin as (y & Hy & Hf). apply filter_In in Hf.
+  apply in_map_iff. exists y. tauto.
+Qed.
+
+Theorem exactly_once local remote m : merge_patches local remote = PushRemote m ->
+  NoDup (map er_commit local) -> NoDup (map er_commit remote) ->
+  NoDup (map er_commit m) /\
+  (forall c, In c (map er_commit m) <-> In c (map er_commit local) \/ In c (map er_commit remote)).
+Proof.
+  intros H Hl Hr. destruct (push_remote_spec _ _ _ H) as (Hp & _ & _).
+  assert (Permutation (map er_commit m) (map er_commit (not_in_remote remote local ++ remote))) as Hpm
+    by (apply Permutation_map; exact Hp).
+  assert (NoDup (map er_commit (not_in_remote remote local ++ remote))) as Hnd.
+  { rewrite map_app. apply NoDup_app_iff || idtac.
+    assert (forall (A : Type) (a b : list A), NoDup a -> NoDup b -> (forall x, In x a -> ~ In x b) -> NoDup (a ++ b)) as Happ.
+    { intros A a. induction a as [|x a IHa]; intros b Ha Hb Hd; [exact Hb|]. cbn [app]. inversion Ha; subst.
+      constructor.
+      - intro Hin. apply in_app_or in Hin. destruct Hin as [Hin|Hin]; [contradiction|].
+        apply (Hd x); [left; reflexivity|exact Hin].
+      - apply IHa; [assumption|exact Hb|]. intros y Hy. apply Hd. right. exact Hy. }
+    apply Happ; [apply NoDup_map_filter; exact Hl|exact Hr|].
+    intros c Hc. apply in_map_iff in Hc. destruct Hc as (r & <- & Hf).
+    unfold MergePatches.not_in_remote in Hf. apply filter_In in Hf. destruct Hf as [_ Hm].
+    apply negb_true_iff in Hm. apply mem_commit_false. exact Hm. }
   split.
   - apply (Permutation_NoDup (Permutation_sym Hpm) Hnd).
-  - intro c. split; intro Hc; [apply (Permutation_in _ Hpm)|apply (Permutation_in _ (Permutation_sym Hpm))]; exact Hc.
+  - intro c. split; intro Hc.
+    + apply (Permutation_in _ Hpm) in Hc. rewrite map_app in Hc. apply in_app_or in Hc.
+      destruct Hc as [Hc|Hc]; [left|right; exact Hc].
+      apply in_map_iff in Hc. destruct Hc as (r & <- & Hf). unfold MergePatches.not_in_remote in Hf.
+      apply filter_In in Hf. apply in_map. tauto.
+    + apply (Permutation_in _ (Permutation_sym Hpm)). rewrite map_app. apply in_or_app.
+      destruct Hc as [Hc|Hc]; [|right; exact Hc].
+      destruct (mem_commit c remote) eqn:Em.
+      * right. apply mem_commit_spec. exact Em.
+      * left. apply in_map_iff in Hc. destruct Hc as (r & <- & Hin). apply in_map.
+        unfold MergePatches.not_in_remote. apply filter_In. split; [exact Hin|]. rewrite Em. reflexivity.
 Qed.
 
 End MergePatchesLemmas.
